@@ -309,7 +309,7 @@ struct Fleet {
 impl Fleet {
     fn new() -> Fleet {
         let (tx, rx) = mpsc::channel();
-        Fleet { backlog: Vec::new(), kids: Vec::new(), rx, tx, exe: std::env::current_exe().unwrap() }
+        Fleet { backlog: Vec::new(), kids: Vec::new(), rx, tx, exe: crate::cache::exe_path() }
     }
     /// spawn one process with QE_IPC_CACHE = mode ("0" | "1" | "auto"); returns its index
     fn spawn(&mut self, mode: &str, rayon: &str) -> usize {
